@@ -30,6 +30,9 @@ from ..core.ctx import CRASH_EXIT
 _real = {}
 
 
+ON_OP = None      # scheduling-point hook of the ambient thread seam (dfsim/seams/ambient.py), called before an op is numbered
+
+
 class FsSeam:
     def __init__(self, ctx, root, plan=None, bufsize=None, copy_bufsize=None, count_only=False):
         self.ctx = ctx
@@ -78,6 +81,9 @@ class FsSeam:
         real operation; for writes ``data``/``raw`` allow a torn prefix."""
         if self._depth:
             return do()             # nested call made by the real implementation of an op already counted
+        hook = ON_OP
+        if hook is not None:
+            hook()                  # scheduling point of the ambient thread seam (before the op is numbered)
         self.n += 1
         k = self.n
         rp = self.rel(path)
